@@ -2,6 +2,7 @@
 package c09
 
 import (
+	"bytes"
 	"fmt"
 	"math"
 	"os"
@@ -46,6 +47,10 @@ type Case struct {
 	Sels   []Sel  `json:"sels"`
 	// Twin: the file holds a second dataset with the same link name in another group (/g/d next to /d), same shape, other
 	// values (and, when TwinChunk is set, another chunk shape); every selection is read from both through the one File
+	// Deflate > 0: the chunks are deflate-compressed at this level. The pipeline message the writer stores carries version
+	// byte 2 over a version 1 layout (C08's open finding); the harness sets that one byte to 1 so that the reader can be
+	// asked about compressed chunks at all.
+	Deflate   int      `json:"deflate,omitempty"`
 	Twin      bool     `json:"twin,omitempty"`
 	TwinChunk []uint64 `json:"twin_chunk,omitempty"`
 }
@@ -233,7 +238,10 @@ func gen(t *rapid.T) Case {
 			}
 		}
 	}
-	if c.Corpus == "" && c.WDims == nil && rapid.IntRange(0, 3).Draw(t, "twin") == 0 {
+	if c.Corpus == "" && c.Chunk != nil && c.WDims == nil && rapid.IntRange(0, 2).Draw(t, "deflate") == 0 {
+		c.Deflate = rapid.IntRange(1, 9).Draw(t, "level")
+	}
+	if c.Corpus == "" && c.WDims == nil && c.Deflate == 0 && rapid.IntRange(0, 3).Draw(t, "twin") == 0 {
 		c.Twin = true
 		if c.Chunk != nil && rapid.Bool().Draw(t, "twinOtherChunks") {
 			for _, e := range c.Dims {
@@ -255,6 +263,15 @@ func classify(c Case) (bool, []string) {
 		labels = append(labels, "corpus")
 	case c.Chunk != nil:
 		labels = append(labels, "chunked")
+		if c.Deflate > 0 {
+			labels = append(labels, "deflate_compressed_chunks")
+			for d := range c.Dims {
+				if d < len(c.Chunk) && c.Dims[d]%c.Chunk[d] != 0 {
+					labels = append(labels, "compressed_partial_edge_chunk")
+					break
+				}
+			}
+		}
 		if c.WDims != nil {
 			labels = append(labels, "resized_after_write")
 		}
@@ -367,6 +384,13 @@ func run(c Case) vt.Verdict {
 			return vt.Bad("CreateForWrite: %v", err)
 		}
 		spec := &hist.DSpec{Type: c.Type, Dims: c.Dims, Chunk: c.Chunk}
+		if c.Deflate > 0 {
+			if c.Chunk == nil || c.WDims != nil || c.Deflate > 9 {
+				ex.Close()
+				return vt.Skipped("bad deflate spec")
+			}
+			spec.Filters = []string{fmt.Sprintf("gzip:%d", c.Deflate)}
+		}
 		if c.WDims != nil {
 			if len(c.WDims) != len(c.Dims) || c.Chunk == nil {
 				ex.Close()
@@ -411,6 +435,22 @@ func run(c Case) vt.Verdict {
 		}
 		if err := ex.Close(); err != nil {
 			return vt.Bad("Close: %v", err)
+		}
+		if c.Deflate > 0 {
+			img, err := os.ReadFile(file)
+			if err != nil {
+				return vt.Bad("read back: %v", err)
+			}
+			// version 2, one filter, six reserved bytes, filter id 1 (deflate)
+			pat := []byte{2, 1, 0, 0, 0, 0, 0, 0, 1, 0}
+			at := bytes.Index(img, pat)
+			if at < 0 || bytes.Index(img[at+1:], pat) >= 0 {
+				return vt.Skipped("pipeline message not located")
+			}
+			img[at] = 1
+			if err := os.WriteFile(file, img, 0o644); err != nil {
+				return vt.Bad("write back: %v", err)
+			}
 		}
 	}
 	f, err := hdf5.Open(file)
